@@ -162,7 +162,7 @@ func checkCLIFiles(p *Program, r *Result) {
 								want = "main.absPath(" + nameT + ")"
 							}
 							isElem := func(s string) bool {
-								return strings.HasPrefix(s, "Elem(Phi[inUseFiles]") || strings.HasPrefix(s, "Elem(")
+								return strings.HasPrefix(s, "Elem(Phi(") || strings.HasPrefix(s, "Elem(")
 							}
 							return (isElem(x) && strings.HasSuffix(y, "absPath("+nameT+")")) || (isElem(y) && strings.HasSuffix(x, "absPath("+nameT+")")) || x == want || y == want
 						}); ok {
